@@ -185,11 +185,13 @@ def throw_sets(run, m, F):
         if 'writef' in f.dem or 'ostream' in f.dem:
             allowed |= STREAM_EXTRA
         # the dynamic type of the writer is the one this entry constructs: restrict virtual dispatch to it
-        ctor = [m.dem(t) for (i, ts, k) in F.calls[name] for t in ts if re.match(r'^_ST_PRIVATE::\w*format_writer(<.*>)?::\w*format_writer\(', m.dem(t))]
-        if not ctor and 'udl_formatter' in f.dem:
-            ctor = ['_ST_PRIVATE::string_format_writer::string_format_writer(']
-        run.need(ctor, 'cannot determine the writer class constructed by %s' % f.dem[:80])
-        wcls = ctor[0].split('::' + ctor[0].split('(')[0].split('::')[-1] + '(')[0]
+        # (constructed by the entry itself or by a helper it forwards to: looked up in everything reachable from it)
+        WR = re.compile(r'^(_ST_PRIVATE::\w*format_writer(?:<.*>)?)::\w*format_writer\(')
+        wcls_all = sorted(set(WR.match(m.dem(t)).group(1) for t in F.reachable_from([name]) if WR.match(m.dem(t))))
+        if len(wcls_all) != 1:
+            run.ob('R10.2', short(f.dem, 90), None, 'the writer class this entry constructs is not unique (%s): virtual dispatch not resolved, throw set not judged' % (wcls_all or 'none found'), loc=fn_loc(f))
+            continue
+        wcls = wcls_all[0]
 
         def keep(t, wcls=wcls):
             d = m.dem(t)
